@@ -406,6 +406,22 @@ private: ///////////////////////////////////////////////////////////////////////
     }
 
     /**
+     * Erase the edge with a provided destination that carries the provided
+     * edge data. With parallel edges the first entry for the destination
+     * need not be the counterpart of the edge being removed.
+     */
+    template <typename EdgeDataPtr>
+    void erase(gNode* N, EdgeDataPtr data, bool inEdge) {
+      for (iterator ii = edges.begin(), ei = edges.end(); ii != ei; ++ii) {
+        if (ii->first() == N && ii->isInEdge() == inEdge &&
+            ii->second() == data) {
+          edges.erase(ii);
+          return;
+        }
+      }
+    }
+
+    /**
      * Find an edge with a particular destination node.
      */
     iterator find(gNode* N, bool inEdge = false) {
@@ -817,8 +833,8 @@ public
     } else {
       dst->first()->acquire(mflag);
       // EdgeTy* e = dst->second();
-      dst->first()->erase(
-          src, Directional ? true : false); // erase incoming/symmetric edge
+      // erase incoming/symmetric edge: the entry sharing this edge's data
+      dst->first()->erase(src, dst->second(), Directional ? true : false);
       src->erase(dst.base());
     }
   }
